@@ -430,8 +430,8 @@ class FSM(object):
             self.keep_alive_timer.cancel()
             self._close_connection()
             self.state = bgp_cons.ST_IDLE
-        elif self.state in (bgp_cons.ST_CONNECT, bgp_cons.ST_ACTIVE):
-            # State Connect, event 24
+        elif self.state in (bgp_cons.ST_CONNECT, bgp_cons.ST_ACTIVE, bgp_cons.ST_ESTABLISHED):
+            # State Connect, Established, event 24
             self._error_close()
 
     def notification_received(self, error, suberror):
